@@ -55,4 +55,38 @@ theorem safeExample2_safe : SafeBlock
             .assign (some 1) (.bin .add (some 0) (.var 0) (some 10) (.var 10)),
             .ret (some 2) (.bin .xor (some 1) (.var 1) (some 0) (.var 0))]⟩ := by decide
 
+/-! ## dead-code elimination -/
+
+/-- `v0 = p10 / p11; return p10` -/
+def deadDivision : Block :=
+  ⟨[10, 11], [.assign (some 0) (.bin .div (some 10) (.var 10) (some 11) (.var 11)), .ret (some 10) (.var 10)]⟩
+
+/-- `p10 = 5`, `p11 = 0` -/
+def env50 : Env := fun r => if r = 10 then 5 else 0
+
+theorem dead_division_output : dce deadDivision = ⟨[10, 11], [.ret (some 10) (.var 10)]⟩ := by decide
+theorem dead_division_before : deadDivision.run javaSem env50 = .throw [] := by decide
+theorem dead_division_after : (dce deadDivision).run javaSem env50 = .ret 5 [] := by decide
+
+/-- `v0 = p10 + p11; v1 = - v0; v2 = f0(p10); v3 = v1 * v1; return p11`: a dead chain is deleted from its end
+    (`update_chain`), the call stays without its register -/
+def deadChain : Block :=
+  ⟨[10, 11],
+   [.assign (some 0) (.bin .add (some 10) (.var 10) (some 11) (.var 11)),
+    .assign (some 1) (.un .neg (some 0) (.var 0)),
+    .assign (some 2) (.call 0 (some 10) (.var 10)),
+    .assign (some 3) (.bin .mul (some 1) (.var 1) (some 1) (.var 1)),
+    .ret (some 11) (.var 11)]⟩
+
+theorem deadChain_safe : (dcePass deadChain).ok = true ∧
+    (dce deadChain).stmts = [.assign none (.call 0 (some 10) (.var 10)), .ret (some 11) (.var 11)] := by decide
+
+/-- `v0 = p10 + p11; v9 = v0 * v0; v1 = v0 - p10; return v1`: both passes change the block and every change is checked -/
+theorem pipelineExample_safe :
+    (dceThenPropagate ⟨[10, 11],
+      [.assign (some 0) (.bin .add (some 10) (.var 10) (some 11) (.var 11)),
+       .assign (some 9) (.bin .mul (some 0) (.var 0) (some 0) (.var 0)),
+       .assign (some 1) (.bin .sub (some 0) (.var 0) (some 10) (.var 10)),
+       .ret (some 1) (.var 1)]⟩).ok = true := by decide
+
 end AgVerif.Propagate
